@@ -280,6 +280,30 @@ func c12Run(e *core.Env) {
 	rec(0, maxN, small)
 	e.SetBound("declarations_reduced_alphabet", maxN)
 
+	// prices whose reciprocal or chain product sits next to an 8-decimal truncation boundary
+	// (a reciprocal of 0.12345678999999999..., 1/3, 1/7, the largest and smallest amounts):
+	// every single declaration and every two-step chain over them
+	hard := []string{"8.1000000081000002049300004017600053815590", "3", "7", "0.7", "1.00000001", "99999999.99999999", "0.00000001", "1000000000", "0.99999999", "6"}
+	for _, p1 := range hard {
+		for _, d1 := range []c12Decl{{"V", "X", p1}, {"X", "V", p1}} {
+			for _, p2 := range append([]string{""}, hard...) {
+				for _, d2 := range []c12Decl{{"Y", "X", p2}, {"X", "Y", p2}} {
+					if !e.Take() {
+						continue
+					}
+					ds := []c12Decl{d1}
+					if p2 != "" {
+						ds = append(ds, d2)
+					}
+					key, detail, picks, _ := c12One(e, ds, false)
+					e.Count("evaluations")
+					if key != "" {
+						e.Violation(key+":boundary-price", detail+fmt.Sprintf("\ndeclarations: %v", ds), c12Case{Decls: ds, Picks: picks}, nil)
+					}
+				}
+			}
+		}
+	}
 	// command level: the same price specification seen through `balance -v` (prices are
 	// declared on consecutive days, so "the price on a given day" includes the rule that a
 	// declaration takes effect on its own day, whatever its direction)
